@@ -19,9 +19,9 @@ func init() { props["C08"] = runC08 }
 
 func keyName(k *identity.Key) string { return k.Public().KeyIdString() }
 
-func writeCraftedSigned(repo repository.RepoData, p craftPack, sign *openpgp.Entity) repository.Hash {
+func writeCraftedSigned(repo repository.RepoData, p craftPack, sign *openpgp.Entity, parents ...repository.Hash) repository.Hash {
 	// same tree as writeCrafted, but the commit is signed (or not) as requested
-	h := writeCrafted(repo, p) // stores the blobs and the tree; we re-create the commit below
+	h := writeCrafted(repo, p, parents...) // stores the blobs and the tree; we re-create the commit below
 	c, err := repo.ReadCommit(h)
 	if err != nil {
 		panic(err)
@@ -29,7 +29,7 @@ func writeCraftedSigned(repo repository.RepoData, p craftPack, sign *openpgp.Ent
 	if sign == nil {
 		return h
 	}
-	sh, err := repo.StoreSignedCommit(c.TreeHash, sign)
+	sh, err := repo.StoreSignedCommit(c.TreeHash, sign, parents...)
 	if err != nil {
 		panic(err)
 	}
@@ -237,6 +237,93 @@ func runC08(c *runCtx) {
 						if verdict2 != "signatureError" {
 							c.violation(c.nCases, "C08/"+v.name, fmt.Sprintf("after a validly signed commit was read, the same pack %s at time %d (keys in force %v) is %s (%s)", v.name, T, inForce, verdict2, backend), hist)
 						}
+					}
+				}
+			}
+		}
+		// the rule holds for every commit of a history, not only for the first: the commit under test
+		// as a second commit on top of a root, and as the merge commit of two concurrent branches
+		// (an empty pack that still names its author); all other commits are signed as the rule asks
+		inForceAt := func(T uint64) []string {
+			var ks []string
+			for _, h := range hist {
+				if h.T <= T {
+					ks = h.Keys
+				}
+			}
+			return ks
+		}
+		goodSigner := func(T uint64) *openpgp.Entity {
+			ks := inForceAt(T)
+			if len(ks) == 0 {
+				return nil
+			}
+			for _, k := range pool {
+				if keyName(k) == ks[0] {
+					return k.PGPEntity()
+				}
+			}
+			panic("key in force is not in the pool")
+		}
+		for _, shape := range []string{"second", "merge"} {
+			for T := uint64(3); T <= t+2; T++ {
+				signers := []*identity.Key{nil, stranger}
+				signers = append(signers, pool...)
+				for _, s := range signers {
+					if c.tier == "quick" && r.chance(1, 2) {
+						continue
+					}
+					cop := g.create()
+					var ent *openpgp.Entity
+					cm := map[string]any{"t": T, "good": true}
+					if s != nil {
+						ent = s.PGPEntity()
+						cm["key"] = keyName(s)
+					}
+					author := string(iden.Id())
+					var head repository.Hash
+					if shape == "second" {
+						root := writeCraftedSigned(repo, craftPack{author: author, ops: opsOf1(cop), edit: T - 1, create: 1, version: bugFormatVersion}, goodSigner(T-1))
+						op2 := bug.NewAddCommentOp(iden, g.now(), "second commit", nil)
+						head = writeCraftedSigned(repo, craftPack{author: author, ops: opsOf1(op2), edit: T, version: bugFormatVersion}, ent, root)
+					} else {
+						root := writeCraftedSigned(repo, craftPack{author: author, ops: opsOf1(cop), edit: T - 2, create: 1, version: bugFormatVersion}, goodSigner(T-2))
+						opA := bug.NewAddCommentOp(iden, g.now(), "branch a", nil)
+						opB := bug.NewAddCommentOp(iden, g.now(), "branch b", nil)
+						a := writeCraftedSigned(repo, craftPack{author: author, ops: opsOf1(opA), edit: T - 1, version: bugFormatVersion}, goodSigner(T-1), root)
+						b := writeCraftedSigned(repo, craftPack{author: author, ops: opsOf1(opB), edit: T - 1, version: bugFormatVersion}, goodSigner(T-1), root)
+						head = writeCraftedSigned(repo, craftPack{author: author, edit: T, version: bugFormatVersion}, ent, a, b)
+					}
+					ref := "refs/bugs/" + string(cop.Id())
+					repo.UpdateRef(ref, head)
+					var verdict string
+					var rerr error
+					if p := recoverTo(func() { _, rerr = bug.Read(repo, cop.Id()) }); p != "" {
+						verdict = "panic"
+					} else if rerr == nil {
+						verdict = "accepted"
+					} else if strings.Contains(rerr.Error(), "signature failure") {
+						verdict = "signatureError"
+					} else {
+						verdict = "other:" + rerr.Error()
+					}
+					repo.RemoveRef(ref)
+					commits = append(commits, cm)
+					verdicts = append(verdicts, verdict)
+					inForce := inForceAt(T)
+					want := "signatureError"
+					if len(inForce) == 0 {
+						want = "accepted"
+					} else if s != nil {
+						for _, k := range inForce {
+							if k == keyName(s) {
+								want = "accepted"
+							}
+						}
+					}
+					c.count(fmt.Sprintf("shape=%s/%s/%s", shape, map[bool]string{true: "keys-in-force", false: "no-key"}[len(inForce) > 0], map[bool]string{true: "signed", false: "unsigned"}[s != nil]))
+					if verdict != want {
+						c.violation(c.nCases, "C08/verdict-"+shape, fmt.Sprintf("%s commit at time %d (the commits before it signed as required), keys in force %v, signed by %v: %s, expected %s (%s)", shape, T, inForce, cm["key"], verdict, want, backend), hist)
 					}
 				}
 			}
